@@ -27,6 +27,8 @@ extra() {  # further checks for a change
 # ONLY="C03 C11" restricts the campaign to the changes of those properties; their lines REPLACE the old ones in $OUT
 ls -d /verif/seeded/C*-m* | sort -V > $TMP/all.txt
 if [ -n "${ONLY:-}" ]; then grep -E "/($(echo $ONLY | tr ' ' '|'))-m" $TMP/all.txt > $TMP/sel.txt; mv $TMP/sel.txt $TMP/all.txt; fi
+# MK="20 21" restricts it further to the changes with those numbers (m20, m21); again their lines replace the old ones
+if [ -n "${MK:-}" ]; then grep -E -- "-m($(echo $MK | tr ' ' '|'))$" $TMP/all.txt > $TMP/sel.txt; mv $TMP/sel.txt $TMP/all.txt; fi
 split -n l/$STREAMS -d $TMP/all.txt $TMP/part.
 for part in $TMP/part.*; do
   (
@@ -40,7 +42,13 @@ for part in $TMP/part.*; do
   ) &
 done
 wait
-if [ -n "${ONLY:-}" ] && [ -f $OUT ]; then
+if [ -n "${MK:-}" ] && [ -f $OUT ]; then
+  sed -E 's|.*/||' $TMP/all.txt > $TMP/names.txt
+  grep -vE "^($(paste -sd'|' $TMP/names.txt)) " $OUT > $TMP/keep.txt
+  cat $TMP/keep.txt > $OUT
+  cat $TMP/part.*.out | grep -E "^C[0-9][0-9]-m[0-9]+ " >> $OUT
+  sort -V -o $OUT $OUT
+elif [ -n "${ONLY:-}" ] && [ -f $OUT ]; then
   grep -vE "^($(echo $ONLY | tr ' ' '|'))-m" $OUT > $TMP/keep.txt
   cat $TMP/keep.txt > $OUT
   cat $TMP/part.*.out | grep -E "^C[0-9][0-9]-m[0-9]+ " >> $OUT
